@@ -12,7 +12,6 @@ import Pms.Props.C15F
 #print axioms Pms.Vec.C15_div_linear
 #print axioms Pms.Vec.C15_vibrability_def
 #print axioms Pms.Vec.C15_vibrability_spec
-#print axioms Pms.Vec.specOf_eq
 #print axioms Pms.Vec.C15_fft_def
 #print axioms Pms.Vec.C15_decomposition
 #print axioms Pms.Vec.C15_unitq
